@@ -3,6 +3,7 @@ package main
 import (
 	"fmt"
 	"os"
+	"runtime/debug"
 	"strconv"
 )
 
@@ -19,6 +20,7 @@ func main() {
 	if len(os.Args) < 2 {
 		usage()
 	}
+	debug.SetGCPercent(1000) // the library allocates heavily (a regexp per token); keep 16 workers busy
 	switch os.Args[1] {
 	case "gen":
 		seed := int64(1)
